@@ -14,6 +14,7 @@ import (
 	"unsafe"
 
 	"github.com/bytedance/gopkg/util/gopool"
+	syscall "golang.org/x/sys/unix"
 )
 
 type vThread struct {
@@ -172,3 +173,112 @@ func vAtomicLoadPointer(site string, p *unsafe.Pointer) unsafe.Pointer {
 }
 
 var _ = fmt.Sprintf
+
+// ---- shim for the three raw IO syscalls of event_dispatcher_linux.go (instrumenter rule R7) ----
+// With no script installed the real syscall is performed. With a script the kernel is simulated: reads are served from
+// `rstream`, writes are accepted into `wout`, each call capped by / answered with the scripted result.
+
+type vSysScriptT struct {
+	reads   []int  // per read call: -1 = EAGAIN, 0 = EOF, k>0 = deliver at most k bytes
+	rstream []byte // bytes still to be delivered by reads
+	writes  []int  // per write/writev call: -1 = EAGAIN, k>=0 accept at most k bytes
+	wout    []byte
+	calls   int
+	onEagainWrite func()
+}
+
+var vSysScript *vSysScriptT
+
+func vSysRead(fd, p, n uintptr) (uintptr, uintptr, syscall.Errno) {
+	sc := vSysScript
+	if sc == nil {
+		return syscall.RawSyscall(syscall.SYS_READ, fd, p, n)
+	}
+	if len(sc.reads) == 0 {
+		return 0, 0, syscall.EAGAIN
+	}
+	k := sc.reads[0]
+	sc.reads = sc.reads[1:]
+	if k < 0 {
+		return 0, 0, syscall.EAGAIN
+	}
+	if uintptr(k) > n {
+		k = int(n)
+	}
+	if k > len(sc.rstream) {
+		k = len(sc.rstream)
+	}
+	dst := unsafe.Slice((*byte)(unsafe.Pointer(p)), k)
+	copy(dst, sc.rstream[:k])
+	sc.rstream = sc.rstream[k:]
+	return uintptr(k), 0, 0
+}
+
+func (sc *vSysScriptT) nextWrite() (int, bool) {
+	sc.calls++
+	if len(sc.writes) == 0 {
+		return 0, false
+	}
+	k := sc.writes[0]
+	sc.writes = sc.writes[1:]
+	return k, true
+}
+
+func vSysWrite(fd, p, n uintptr) (uintptr, uintptr, syscall.Errno) {
+	sc := vSysScript
+	if sc == nil {
+		return syscall.Syscall(syscall.SYS_WRITE, fd, p, n)
+	}
+	k, ok := sc.nextWrite()
+	if !ok {
+		sc.calls--
+		return 0, 0, syscall.EPIPE // script exhausted: stop the loop
+	}
+	if k < 0 {
+		if sc.onEagainWrite != nil {
+			sc.onEagainWrite()
+		}
+		return 0, 0, syscall.EAGAIN
+	}
+	if uintptr(k) > n {
+		k = int(n)
+	}
+	sc.wout = append(sc.wout, unsafe.Slice((*byte)(unsafe.Pointer(p)), k)...)
+	return uintptr(k), 0, 0
+}
+
+func vSysWritev(fd, p, n uintptr) (uintptr, uintptr, syscall.Errno) {
+	sc := vSysScript
+	if sc == nil {
+		return syscall.Syscall(syscall.SYS_WRITEV, fd, p, n)
+	}
+	k, ok := sc.nextWrite()
+	if !ok {
+		sc.calls--
+		return 0, 0, syscall.EPIPE
+	}
+	if k < 0 {
+		if sc.onEagainWrite != nil {
+			sc.onEagainWrite()
+		}
+		return 0, 0, syscall.EAGAIN
+	}
+	iov := unsafe.Slice((*syscall.Iovec)(unsafe.Pointer(p)), int(n))
+	left := k
+	total := 0
+	for _, v := range iov {
+		if left == 0 {
+			break
+		}
+		m := int(v.Len)
+		if m > left {
+			m = left
+		}
+		if m > 0 {
+			sc.wout = append(sc.wout, unsafe.Slice(v.Base, m)...)
+		}
+		left -= m
+		total += m
+	}
+	return uintptr(total), 0, 0
+}
